@@ -169,6 +169,15 @@ Generic2 ==      \* only the contract is generic, and only in its exec messages
                   [id |-> "own", methods |-> << Sh(NameInstantiate, "instantiate", "ok"), Gm(<<"x">>, "exec", GSig2),
                                                 Sh(<<"y">>, "query", "err"), Gm(<<"z">>, "sudo", GSig) >>] >>]
 
+(* the contract's type parameter is also what queries *return* (the contract's own query and, through the associated type, the
+   interface's): the response tables of such a contract depend on the type it is used with ("GenT": that type) *)
+Gq(name, sig) == [Gm(name, "query", sig) EXCEPT !.resp = "GenT", !.ret = "GenT"]
+Generic3 ==
+    [id |-> "G3", family |-> "generic", overrides |-> {},
+     parts |-> << [id |-> "i1", methods |-> << Gm(NameFoo, "exec", GSig), Gq(NameBar, GSig), Sh(<<"x","_","y">>, "query", "ok") >>],
+                  [id |-> "own", methods |-> << Gm(NameInstantiate, "instantiate", GSig), Gm(<<"x">>, "exec", GSig2),
+                                                Gq(<<"y">>, <<>>), Sh(<<"z","_","1">>, "query", "ok"), Gm(NameFoo, "sudo", GSig) >>] >>]
+
 (* a program whose handler arguments carry a forwarded `serde(default)` (plain, and wrapped in a conditional attribute):
    the attribute must take effect on the message field -- the argument may be left out on the wire (C17) *)
 DefaultTypes == {"DfltU32", "DfltU32W"}
@@ -329,7 +338,7 @@ PermTwin(p) ==
 RawSeq ==      \* all programs of this instance, as a sequence
        [gi \in 1..Len(Groups) |-> CorpusProg(gi)]
     \o [i \in 1..Len(SmallFs) |-> SmallProgOf(SmallFs[i], "m" \o ToString(i))]
-    \o <<Shared1, Shared2, Shared3, Nested1, Unicode1, Empty1, CtxKinds1, Wide1, Defaults1, Keywords1, Generic1, Generic2, PermTwin(Shared1), PermTwin(CorpusProg(1)),
+    \o <<Shared1, Shared2, Shared3, Nested1, Unicode1, Empty1, CtxKinds1, Wide1, Defaults1, Keywords1, Generic1, Generic2, Generic3, PermTwin(Shared1), PermTwin(CorpusProg(1)),
       Alias1, Alias2(FALSE), Alias2(TRUE), MsgAttrs1, Spread1, PermTwin(Spread1)>> \o OverrideProgs \o CollideProgs
 
 (* the table of elaborated programs: the static semantics applied once per program *)
